@@ -9,3 +9,8 @@ import "go/ast"
 func hasTypeParams(ft *ast.FuncType) bool {
 	return ft.TypeParams != nil && len(ft.TypeParams.List) > 0
 }
+
+// isGenericType reports whether the type declaration has type parameters.
+func isGenericType(ts *ast.TypeSpec) bool {
+	return ts.TypeParams != nil && len(ts.TypeParams.List) > 0
+}
